@@ -199,7 +199,7 @@ func coqRle(b []byte) string {
 	r := lib.ToRle(b)
 	s := make([]string, len(r))
 	for i, x := range r {
-		s[i] = fmt.Sprintf("(%d,%d)", x.V, x.C)
+		s[i] = fmt.Sprintf("(R %d %d)", x.V, x.C)
 	}
 	return "[" + strings.Join(s, ";") + "]"
 }
@@ -209,15 +209,15 @@ func coqNode(n hNode) string {
 	case "dir":
 		return "RDir"
 	case "link":
-		return "RLink " + coqDest(n.Dest)
+		return "(RLink " + coqDest(n.Dest) + ")"
 	}
-	return "RFile " + coqRle(n.Data)
+	return "(RFile " + coqRle(n.Data) + ")"
 }
 
 func coqTree(t hTree) string {
 	var s []string
 	for _, p := range t.paths() {
-		s = append(s, "("+coqPath(p)+", "+coqNode(t[p])+")")
+		s = append(s, "(E "+coqPath(p)+" "+coqNode(t[p])+")")
 	}
 	return lib.CoqList(s)
 }
@@ -778,17 +778,17 @@ func containerSummary(sig *pwr.SignatureInfo) map[string]interface{} {
 func healFinding(hc *healCase, oracle string) string { return "" }
 
 // healCoq prints the case as a term of type heal_case:
-// (id, target, (dirs, links, files), damaged tree, [(class, final tree)...])
+// HC id target (RB dirs links files) damaged-tree [OUT class final-tree; ...]
 func healCoq(hc *healCase, sig *pwr.SignatureInfo, runs []healRun) string {
 	var d, l, f []string
 	for _, x := range sig.Container.Dirs {
 		d = append(d, coqPath(x.Path))
 	}
 	for _, x := range sig.Container.Symlinks {
-		l = append(l, "("+coqPath(x.Path)+", "+coqDest(x.Dest)+")")
+		l = append(l, "(LK "+coqPath(x.Path)+" "+coqDest(x.Dest)+")")
 	}
 	for _, x := range sig.Container.Files {
-		f = append(f, "("+coqPath(x.Path)+", "+coqRle(hc.Signed[x.Path].Data)+")")
+		f = append(f, "(FL "+coqPath(x.Path)+" "+coqRle(hc.Signed[x.Path].Data)+")")
 	}
 	var outs []string
 	seen := map[string]bool{}
@@ -797,13 +797,13 @@ func healCoq(hc *healCase, sig *pwr.SignatureInfo, runs []healRun) string {
 			continue // a hang has no final tree; the oracle has flagged it
 		}
 		cl := map[string]int64{"ok": 0, "error": 1, "panic": 2}[ru.Class]
-		o := fmt.Sprintf("(%d, %s)", cl, coqTree(ru.Final))
+		o := fmt.Sprintf("(OUT %d %s)", cl, coqTree(ru.Final))
 		if !seen[o] { // the distinct outcomes of the GOMAXPROCS runs
 			seen[o] = true
 			outs = append(outs, o)
 		}
 	}
-	return fmt.Sprintf("($ID, %s, (%s, %s, %s), %s, %s)", coqPath("t0"), lib.CoqList(d), lib.CoqList(l), lib.CoqList(f),
+	return fmt.Sprintf("(HC $ID %s (RB %s %s %s) %s %s)", coqPath("t0"), lib.CoqList(d), lib.CoqList(l), lib.CoqList(f),
 		coqTree(hc.Damaged), lib.CoqList(outs))
 }
 
